@@ -53,7 +53,7 @@ def scratch(prop, with_tests=False, patched=True):
     shutil.copy(os.path.join(sdir(prop), 'demo.py'), os.path.join(tmp, 'SEED', 'demo.py'))
     if with_tests:
         shutil.copytree('/repo/tests', os.path.join(tmp, 'tests'))
-        for f in ('setup.cfg',):
+        for f in ('setup.cfg', '.coveragerc'):
             if os.path.exists('/repo/' + f):
                 shutil.copy('/repo/' + f, tmp)
     if patched:
